@@ -188,6 +188,10 @@ func (s *Schema) Validate(document jschema.Document) (err error) {
 		return fmt.Errorf("support only JSON documents, but got %T", document)
 	}
 
+	if s.inner.RootNode() == nil {
+		return errors.NewDocumentError(s.file, errors.ErrEmptySchema)
+	}
+
 	return s.validate(document)
 }
 
